@@ -209,7 +209,12 @@ def main(argv=None):
     for i, l in enumerate(lines):
         o, e = outs[i]
         m = model_outs[i] if model_outs is not None else None
-        msg = mod.oracle(l, o, e)
+        if isinstance(e, dict) and e.get("memory_error"):
+            # run_cases caught a MemoryError under the address-space cap: that is the observation (an operation that never
+            # finishes / grows without bound on a small input); the property's oracle cannot parse it
+            msg = "the case did not finish: MemoryError under the harness memory cap"
+        else:
+            msg = mod.oracle(l, o, e)
         if msg:
             flagged.append((l, o, m, msg))
         if m is not None and not compare(o, m, l):
